@@ -195,11 +195,32 @@ def python_twin(yp, E, clauses, key, style=0):
             return
         for _ in it:
             yield from goals(gs, i + 1, env)
+    def head_names(head):
+        acc = []
+        def walk(t):
+            if t[0] == 'var': acc.append(t[1])
+            elif t[0] == 'fun': [walk(x) for x in t[2]]
+            elif t[0] == 'list': [walk(x) for x in t[1]]
+            elif t[0] == 'pair': walk(t[1]); walk(t[2])
+        [walk(h) for h in head]
+        return acc
     def pred(*args):
         for name, head, body in cs:
             env = {}
-            hs = [build_sterm(yp, h, env) for h in head]
-            for _ in E.unify_arrays(list(args), hs):
+            names = head_names(head)
+            a1, a2 = [], []
+            for h, a in zip(head, args):
+                # as the compiled clause: an anonymous variable is skipped, a plain variable that occurs once in the head just
+                # names the argument (the argument is not looked at), every other head argument is unified
+                if h[0] == 'var' and h[1] == '_':
+                    continue
+                if h[0] == 'var' and names.count(h[1]) == 1:
+                    env[h[1]] = a
+                    continue
+                a1.append(a)
+                a2.append(h)
+            hs = [build_sterm(yp, h, env) for h in a2]
+            for _ in E.unify_arrays(a1, hs):
                 yield from goals(flat_goals(body), 0, env)
     return pred
 
